@@ -480,9 +480,14 @@ def make_nofilter():
             on = ["R", "I1", "P"][en.choice("on", 3)]
             if has_filter:
                 F.add_filter(g[on], "needle")
-            case = lambda mv: {"kind": "nofilter", "has_filter": has_filter, "host": host, "provider": kind, "on": on}  # noqa
+            two_points = en.flag("two_points")
+            if two_points:
+                dr.add_dependency(g["plain"], g["I1"])      # the same datasource also feeds a second, non-filterable spec
+            case = lambda mv: {"kind": "nofilter", "has_filter": has_filter, "host": host, "provider": kind, "on": on, "two_points": two_points}  # noqa
             en.note_sample(case)
-            raised = try_provider(g, kind, host)
+            from symx import oset as _oset
+            with _oset.symbolic_order(mode="global"):
+                raised = try_provider(g, kind, host)
             en.must_hold(raised == (host and not has_filter), "no-filter-no-collection", case,
                          detail="NoFilterException %s (host=%s, filters=%s)" % ("raised" if raised else "not raised", host, has_filter))
     return fn
@@ -629,11 +634,16 @@ def _native(case):
         if p.returncode not in (0,) or p.stdout.splitlines() != want:
             bad.append("real grep %r: rc=%s output=%r, the matching lines are %r" % (argv, p.returncode, p.stdout.splitlines()[:4], want))
         return bad
-    g = build_graph()
-    if case["has_filter"]:
-        F.add_filter(g[case["on"]], "needle")
-    raised = try_provider(g, case["provider"], case["host"])
-    return [] if raised == (case["host"] and not case["has_filter"]) else ["NoFilterException %s" % ("raised" if raised else "not raised")]
+    for _ in range(40 if case.get("two_points") else 1):      # the order of the two registry points in a native set follows their addresses
+        g = build_graph()
+        if case["has_filter"]:
+            F.add_filter(g[case["on"]], "needle")
+        if case.get("two_points"):
+            dr.add_dependency(g["plain"], g["I1"])
+        raised = try_provider(g, case["provider"], case["host"])
+        if raised != (case["host"] and not case["has_filter"]):
+            return ["NoFilterException %s" % ("raised" if raised else "not raised")]
+    return []
 
 
 def validate(tier):
